@@ -13,7 +13,7 @@ TECHNIQUE = "exhaustive enumeration of branch mnemonic x displacement -140..+140
 RULE = (
     "programs `*=S` [`@=R`] label/padding/branch built so that target - (branch+2) = d for every d in -140..140 (quick: 2 mnemonics over the full range, the others at "
     "-129,-128,-1,0,127,128) and for far same-bank displacements (+-0x100, 0x200, 0x1000, 0x4000, half a window, a window minus 0x100, a whole window, each +-{0..3,126..130}), target given as backward label / forward label / numeric address, placements {mid-window, branch on the last two bytes of the window, target on "
-    "the first byte, target on the last byte}, relocation {none, @= to a ROM address in another bank, @= to RAM with ROM or RAM target, ROM branch to a RAM address}, primary and mirror bank ranges, LoROM and "
+    "the first byte, target on the last byte}, relocation {none, @= to a ROM address in another bank, @= to RAM with ROM or RAM target, ROM branch to a RAM address, position moved into RAM with *= (after ROM code or after an @= to RAM)}, primary and mirror bank ranges, LoROM and "
     "HiROM.  Oracle: same bank + both in-window ROM: -128<=d<=127 => accepted with [opcode, d&0xFF]; else rejected; RAM run address or RAM target => rejected.  "
     "Non-trivial = |d| in 126..130, or a window-edge placement, or any @= / RAM case; distinct by construction."
 )
@@ -26,7 +26,7 @@ MUST_ASSEMBLE = ["bcc", "bcs", "beq", "bmi", "bne", "bpl", "bra"]
 KEY_D = [-129, -128, -1, 0, 127, 128]
 PLACES = ["mid", "branch-at-end", "target-at-start", "target-at-end", "rom-start"]
 TARGETS = ["back", "fwd", "num"]
-RELOCS = ["none", "rom", "ram-both", "ram-branch", "ram-target"]
+RELOCS = ["none", "rom", "ram-both", "ram-branch", "ram-target", "star-ram"]
 
 
 def selftest() -> None:
@@ -134,6 +134,18 @@ def build(case):
         else:
             src = f"*=0x{B:06x}\n@=0x{ram:06x}\n{m} 0x{T:06x}\n"
         return src, rom, ("reject", "branch runs from RAM")
+    if reloc == "star-ram":
+        # the position was moved into RAM with `*=` (directly, or after an `@=` to RAM): the branch has no ROM run address
+        if tgt == "fwd":
+            return None
+        pre = f"@=0x{ram + 0x100:06x}\n.db 0xea\n" if (d & 1) else ""
+        if tgt == "back":
+            if d < -120:
+                return None
+            src = f"*=0x{S:06x}\ntg:\n" + pad(max(0, B - T - 1)) + pre + f"*=0x{ram:06x}\n{m} tg\n"
+        else:
+            src = f"*=0x{B:06x}\n.db 0xea\n" + pre + f"*=0x{ram:06x}\n{m} 0x{T:06x}\n"
+        return src, rom, ("reject", "position moved into RAM")
     if reloc == "ram-target":
         if tgt != "num":
             return None
